@@ -241,7 +241,7 @@ func c02Steps(body *ast.BlockStmt, inbound bool) []int64 {
 		case *ast.ExprStmt:
 			if c02HasCall(x, "", "Run") {
 				steps = append(steps, 7)
-			} else if c02HasCall(x, "", "registerConnection") {
+			} else if c02HasCall(x, "", "registerConnection") || c02HasCall(x, "", "registerCheckedConnection") {
 				steps = append(steps, 8)
 			} else if c02HasWsWrite(x) {
 				steps = append(steps, 9)
@@ -462,7 +462,7 @@ func genCertTable() {
 	fmt.Fprintf(&sb, "Definition ws_subprotocols_known : bool := %v.\n", protosKnown && requiredKnown)
 	fmt.Fprintf(&sb, "(* decision sequence (top-level statements, in order):\n")
 	fmt.Fprintf(&sb, "   1 sub-protocol check  2 peer-certificate-present check  3 cert.SkiFromCertificate on the first certificate, error refuses\n")
-	fmt.Fprintf(&sb, "   4 presented SKI <> dialled SKI refuses (outbound)  5 keepThisConnection  6 ship.NewConnectionHandler  7 Run()  8 registerConnection\n")
+	fmt.Fprintf(&sb, "   4 presented SKI <> dialled SKI refuses (outbound)  5 keepThisConnection  6 ship.NewConnectionHandler  7 Run()  8 registerConnection or registerCheckedConnection\n")
 	fmt.Fprintf(&sb, "   9 something the translator does not understand (a check that does not close-and-return, a write on the socket) *)\n")
 	fmt.Fprintf(&sb, "Definition inbound_steps : list N := %s.\n\n", c02NList(c02Steps(sh.Body, true)))
 
